@@ -198,8 +198,8 @@ class SqwBuilder:
             data_range=np.vstack(
                 [
                     (
-                        sc.to_unit(row.min(), unit).value,
-                        sc.to_unit(row.max(), unit).value,
+                        _to_row_unit(row.min(), unit).value,
+                        _to_row_unit(row.max(), unit).value,
                     )
                     for row, unit in zip(
                         pix_wrap.row_data, pix_wrap.row_units, strict=True
@@ -388,6 +388,17 @@ def _to_canonical_block_order(
     return out
 
 
+def _to_row_unit(var: sc.Variable, unit: str | None) -> sc.Variable:
+    if (
+        unit is not None
+        and var.unit != unit
+        and var.dtype not in (sc.DType.float64, sc.DType.float32)
+    ):
+        # to_unit converts integers in integer arithmetic, e.g., 15/nm -> 1/angstrom
+        var = var.to(dtype='float64', copy=False)
+    return sc.to_unit(var, unit, copy=False)
+
+
 def _split_pix_rows(
     data: sc.DataArray, rows: tuple[str, ...], row_units: tuple[str | None, ...]
 ) -> _PixWrap:
@@ -455,7 +466,7 @@ class _PixWrap:
             for i_row, (row, unit) in enumerate(
                 zip(self.row_data, self.row_units, strict=True)
             ):
-                buffer[:n, i_row] = sc.to_unit(
-                    row[offset : offset + chunk_size], unit, copy=False
+                buffer[:n, i_row] = _to_row_unit(
+                    row[offset : offset + chunk_size], unit
                 ).values
             sqw_io.write_array(buffer[:n])
